@@ -1,6 +1,8 @@
 package node
 
 import (
+	"fmt"
+
 	"github.com/freeconf/yang/meta"
 	"github.com/freeconf/yang/val"
 	"github.com/freeconf/yang/xpath"
@@ -32,7 +34,21 @@ func (y CheckWhen) check(s *Selection, m meta.Meta) (bool, error) {
 	}
 	if hw, ok := m.(meta.HasWhen); ok {
 		if hw.When() != nil {
-			xp, err := xpath.Parse(hw.When().Expression())
+			lookup := func(prefix string) (*meta.Module, error) {
+				// prefixes in the expression are those of the module the statement is written in
+				mod := meta.OriginalModule(m)
+				if mod.Prefix() == prefix {
+					return mod, nil
+				}
+				if imp, found := mod.Imports()[prefix]; found {
+					return imp.Module(), nil
+				}
+				if main := meta.BelongsToModule(mod); main.Prefix() == prefix {
+					return main, nil
+				}
+				return nil, fmt.Errorf("prefix '%s' in when expression \"%s\" is not defined", prefix, hw.When().Expression())
+			}
+			xp, err := xpath.Parse2(lookup, hw.When().Expression())
 			if err != nil {
 				return false, err
 			}
